@@ -28,6 +28,14 @@ def put(s,name,body):
     if b in s:
         return s[:s.index(b)+len(b)]+"\n"+body+"\n"+s[s.index(e):]
     return s+"\n"+b+"\n"+body+"\n"+e+"\n"
-s=put(s,'FINDINGS',ft); s=put(s,'SEEDED',st)
+import sys
+sys.path.insert(0,'/verif')
+from props import PROPS
+crows=["| property | level | binary | quick runs / budget | rule (what is generated) | probes |","|---|---|---|---|---|---|"]
+HEAVY={"C01","C02","C03","C06","C07","C09","C10","C11","C12","C13","C14","C15","C16","C17","C37"}
+for pid in sorted(PROPS):
+    c=PROPS[pid]
+    crows.append("| %s | %s | %s | %s / %ss | %s | %s |"%(pid,c.get('level','exploration'),'heavy' if pid in HEAVY else 'light',c['quick']['runs'],c['quick'].get('budget'),(c.get('rule','') or '').replace('|','/').replace('\n',' ')[:420],', '.join(c.get('probes',[]))[:200]))
+s=put(s,'FINDINGS',ft); s=put(s,'SEEDED',st); s=put(s,'CHECKS',"\n".join(crows))
 open(D,'w').write(s)
 print(len(rows)-2,'findings,',len(srows)-2,'seeded changes')
